@@ -802,6 +802,9 @@ package sbom
 
 //@ func NodeList.RelateNodeListAtID
 //@   props C04, C08, C05
+//@   ensures [C05:relate:prefix] len(nl.Nodes) >= old(len(nl.Nodes)) && (forall a int :: 0 <= a && a < old(len(nl.Nodes)) ==> nl.Nodes[a] == old(nl.Nodes[a]))
+//@   invariant L0: [C05:inv] len(nl.Nodes) >= old(len(nl.Nodes)) && (forall a int :: 0 <= a && a < old(len(nl.Nodes)) ==> nl.Nodes[a] == old(nl.Nodes[a]))
+//@   invariant L1: [C05:inv] len(nl.Nodes) >= old(len(nl.Nodes)) && (forall a int :: 0 <= a && a < old(len(nl.Nodes)) ==> nl.Nodes[a] == old(nl.Nodes[a]))
 //@   ensures [C05:relate:nodesGrow] forall x string :: (x in old(fieldset(nl.Nodes, Id))) ==> (x in fieldset(nl.Nodes, Id))
 //@   invariant L0: [C05:inv] forall x string :: (x in old(fieldset(nl.Nodes, Id))) ==> (x in fieldset(nl.Nodes, Id))
 //@   invariant L1: [C05:inv] forall x string :: (x in old(fieldset(nl.Nodes, Id))) ==> (x in fieldset(nl.Nodes, Id))
